@@ -52,6 +52,8 @@ def gen_plan(rng, tier, run):
             "ext": rng.choice([".pel", ".txt", ".PEL", ".bak"]) if ext and rng.random() < 0.7 else None,
             "hex": rng.random() < 0.25,
             "stdout_encoding": rng.choice(["utf-8", "utf-8", "utf-8", "ascii", "latin-1"]),
+            # environment: "on the BMC" (built-in default directory, no -p; -A = its archive/) or a workstation (-p)
+            "bmc": rng.choice([None, None, None, "logs", "archive"]),
             "skip_plugins": rng.random() < 0.2,
             "registry": common.gen_registry(rng, [f["recipe"] for f in files]) if rng.random() < 0.5 else None,
             # invocations executed earlier in the same module set (a library user / test harness calling main() repeatedly):
@@ -80,20 +82,27 @@ def execute(plan):
     datas = {f["name"]: common.file_data(f) for f in files}
     if any(len(d) > 2048 for d in datas.values()):
         bump("pel_over_2KiB")
-    base = ["-p", "@/D"] + plan["opts"] + (["-e", plan["ext"]] if plan["ext"] else []) + (["-P"] if plan["skip_plugins"] else [])
+    target = "D/archive" if plan.get("bmc") == "archive" else "D"
+    base = ["-p", "@/" + target] + plan["opts"] + (["-e", plan["ext"]] if plan["ext"] else []) + (["-P"] if plan["skip_plugins"] else [])
     rev = ["-r"] if plan["rev"] else []
     events = 0
     h = hashlib.sha256()
-    with World(registry=plan["registry"]) as w:
+    with World(registry=plan["registry"], bmc="D" if plan.get("bmc") else None) as w:
+        if plan.get("bmc"):
+            bump("environment:bmc-" + plan["bmc"])
         w.fresh_per_run = bool(plan.get("fresh"))
         bump("process_model:fresh" if w.fresh_per_run else "process_model:shared")
-        common.put_store(w, "D", [dict(f, data=datas[f["name"]]) for f in files])
+        w.mkdir("D")
+        common.put_store(w, target, [dict(f, data=datas[f["name"]]) for f in files])
+        if target != "D":
+            # the live directory next to the archive holds other logs, which -A must not show
+            w.put("D/decoy_%08X" % 0x5EC0DE01, pelgen.build(pelgen.gen_pel(__import__("random").Random(plan["orders"]["n"]["key"]), eid=0x5EC0DE01, want_class="serviceable")))
         before = w.snapshot()
         def prelude(pos):
             # other invocations of the same process, before / between the compared ones
             for i, pre in enumerate(plan.get("prelude", [])):
                 if pre.get("pos", i % 3) == pos:
-                    w.run(["-p", "@/D", pre["mode"]] + pre["opts"] + pre["flags"])
+                    w.run(["-p", "@/" + target, pre["mode"]] + pre["opts"] + pre["flags"])
                     bump("prelude")
         res = {}
         prelude(0)
